@@ -947,7 +947,7 @@ fn dial(args: &[&str]) -> String {
                     let slot: usize = t[2].parse().unwrap();
                     let before = accepted.lock().unwrap().len();
                     match tokio::time::timeout(
-                        Duration::from_secs(5),
+                        Duration::from_millis(1500),
                         client.create_proxy_stream((host, ports[slot])),
                     )
                     .await
